@@ -23,6 +23,7 @@ struct KeySpec {
     int tls13_psk_cipher = 0;        // cipher suite bound to that PSK (needed for early data under it); 0 = unbound
     int forge_cert_mode = 0;         // with forge_cert_sig: 0 = one bit of the issuer's signature flipped; 1 = issuer name changed by one character and the signature
                                      // field replaced by the trusted CA certificate's own signature bytes (public data: no key is needed to make such a certificate)
+    int ocsp = 0;                    // server: load a stapled OCSP response for the identity (1 = 'good' blob of the P-256 identity, 2 = 'revoked')
     bool chain = false;              // the identity is sent as a two-element chain: leaf followed by its issuer's certificate
     bool forge_cert_sig = false;     // identity certificate with one bit of the issuer's signature flipped (key still matches): a forged certificate
 };
@@ -47,6 +48,7 @@ struct EpCfg {
     std::vector<uint16_t> groups;         // TLS 1.3 / ECDHE groups (named group ids)
     int key_shares = 0;
     std::vector<uint16_t> sigalgs;
+    bool ocsp_stapling = false;           // client: ask for a stapled OCSP response (status_request); this build is must-staple: an answered request must be followed by CertificateStatus
     int send_sni = 0;                     // client: 1 = put the expected name into a server_name extension (as applications do); 2 = server_name + ALPN (a two-entry extension list); 3 = + a private extension
     int max_frag = 0;                     // client: request this max_fragment_length (512, 1024, 2048, 4096); 0 = none
     int ec_flags = 0;
